@@ -143,12 +143,14 @@ def build(seed, tier):
     elif end < 0.85:
         ops.append({'op': 'resolve'})
     return {'pieces': pieces, 'pattern': pattern, 'pname': pname, 'independent': independent, 'ops': ops, 'funcs': funcs,
+            'main_file': r.choice(['answer.py', 'answer.py', 'student_code.py', 'main.py']),
             'meta': {'seed': seed, 'markers': m, 'mode': 'independent' if independent else 'cumulative'}}
 
 
 # --------------------------------------------------------------------------- execution
 
-LINE_RE = re.compile(r'Line (\d+) of file answer\.py')
+MAIN_NAMES = ('answer.py', 'student_code.py', 'main.py')
+LINE_RE = re.compile(r'Line (\d+) of file (?:answer|student_code|main)\.py')
 
 
 def fb_rec(f):
@@ -161,7 +163,7 @@ def fb_rec(f):
             'line': getattr(loc, 'line', None) if loc is not None else None,
             'lineno_field': fields.get('lineno') if isinstance(fields.get('lineno'), int) else None,
             'tb_text_lines': [int(x) for x in LINE_RE.findall(msg)],
-            'tb_stack_lines': [getattr(fr, 'lineno', None) for fr in stack if fr is not None and getattr(fr, 'filename', None) == 'answer.py'],
+            'tb_stack_lines': [getattr(fr, 'lineno', None) for fr in stack if fr is not None and getattr(fr, 'filename', None) in MAIN_NAMES],
             'exception_name': fields.get('exception_name') if isinstance(fields.get('exception_name'), str) else None,
             'name_field': fields.get('name') if isinstance(fields.get('name'), str) else None,
             'message_head': msg[:80]}
@@ -179,11 +181,12 @@ def execute(spec):
     from pedal.sandbox.commands import run, get_sandbox
     from pedal.resolvers.simple import resolve
     original = ''.join(spec['pieces'])
-    MONITOR.configure(student_files=['answer.py'], instructor_files=['instructor.py'])
+    main_file = spec.get('main_file', 'answer.py')
+    MONITOR.configure(student_files=[main_file], instructor_files=['instructor.py'])
     MONITOR.begin(digest=True)
     MAIN_REPORT.clear()
     world.install_seeded_sets(MAIN_REPORT, 3)
-    MAIN_REPORT.contextualize(Submission(files={'answer.py': original}, main_file='answer.py', instructor_file='instructor.py'))
+    MAIN_REPORT.contextualize(Submission(files={main_file: original}, main_file=main_file, instructor_file='instructor.py'))
     sub = MAIN_REPORT.submission
     obs = []
     out = {'original': original}
